@@ -230,12 +230,16 @@ where
     // We accumulate all validity checks into single branches at the end in order to
     // keep the loop itself branchless.
     let mut laps_or_zeros = 0usize;
+    let mut zeros = 0usize;
+    let mut count = 0usize;
     let mut accum = Probability::zero();
 
     for probability in probabilities {
         let old_accum = accum;
         accum = accum.wrapping_add(probability.borrow());
         laps_or_zeros += (accum <= old_accum) as usize;
+        zeros += (*probability.borrow() == Probability::zero()) as usize;
+        count += 1;
         let symbol = symbols.next().ok_or(())?;
         operation(symbol, old_accum, *probability.borrow())?;
     }
@@ -243,13 +247,26 @@ where
     let total = wrapping_pow2::<Probability>(PRECISION);
 
     if infer_last_probability {
-        if accum >= total || laps_or_zeros != 0 {
+        // The provided probabilities must be nonzero and must sum up to strictly less than
+        // `2^PRECISION` without wrapping (for `PRECISION == Probability::BITS`, `total` wraps
+        // to zero and any sum that doesn't wrap is strictly smaller than `2^PRECISION`).
+        // There must be at least one provided probability since we don't support
+        // degenerate distributions that put all probability mass on a single symbol.
+        if laps_or_zeros != 0 || count == 0 || (PRECISION != Probability::BITS && accum >= total)
+        {
             return Err(());
         }
         let symbol = symbols.next().ok_or(())?;
         let probability = total.wrapping_sub(&accum);
         operation(symbol, accum, probability)?;
-    } else if accum != total || laps_or_zeros != (PRECISION == Probability::BITS) as usize {
+    } else if accum != total
+        || laps_or_zeros != (PRECISION == Probability::BITS) as usize
+        || zeros != 0
+        || count < 2
+    {
+        // The probabilities must be nonzero and sum up to exactly `2^PRECISION` (which wraps
+        // exactly once if `PRECISION == Probability::BITS`), and there must be at least two of
+        // them (a single symbol with probability one is a degenerate distribution).
         return Err(());
     }
 
